@@ -72,10 +72,9 @@ var srcUnits = []srcUnit{
 		funcs: []string{"IsLeap", "ToJd", "JdTo", "GetMonthLen"}},
 	{dir: "cal_types/hijri", path: modPath + "/cal_types/hijri", lean: "Hijri", pre: "hijri",
 		funcs: []string{"IsLeap", "ToJd", "JdTo", "GetMonthLen", "MonthData.GetDateFromJd", "MonthData.GetJdFromDate"}, fix: map[string]bool{"useMonthData": false}},
-	// the same package with the month table on: ToJd and GetMonthLen go through the table first (JdTo, which tests a
-	// nil-able pointer, is not in the fragment)
+	// the same package with the month table on: the calendar functions go through the table first
 	{dir: "cal_types/hijri", path: modPath + "/cal_types/hijri", lean: "HijriT", pre: "hijriT",
-		funcs: []string{"IsLeap", "MonthData.GetJdFromDate", "ToJd", "GetMonthLen"}, fix: map[string]bool{"useMonthData": true}},
+		funcs: []string{"IsLeap", "MonthData.GetJdFromDate", "MonthData.GetDateFromJd", "ToJd", "JdTo", "GetMonthLen"}, fix: map[string]bool{"useMonthData": true}},
 }
 
 // functions the translator does not read but maps to a definition of lean/Starcal/SrcExt.lean
@@ -160,6 +159,19 @@ func ownStruct(n *types.Named, pre string) (string, bool) {
 	srcOwnStructs[q] = "structure " + name + " where\n" + strings.Join(fields, "\n") + "\nderiving DecidableEq, Repr\n"
 	srcOwnStructOrder = append(srcOwnStructOrder, q)
 	return name, true
+}
+
+// declsByObj: the declaration(s) of a function object of this package
+func (sp *srcPkg) declsByObj(fn *types.Func) []*ast.FuncDecl {
+	var out []*ast.FuncDecl
+	for _, f := range sp.files {
+		for _, d := range f.Decls {
+			if fd, ok := d.(*ast.FuncDecl); ok && sp.info.Defs[fd.Name] == fn.Origin() {
+				out = append(out, fd)
+			}
+		}
+	}
+	return out
 }
 
 type untranslatable struct{ msg string }
@@ -352,6 +364,7 @@ type fnTrans struct {
 	resType   string         // Lean type of the function's result
 	inWhile   bool           // translating the body of a `for cond { … }` loop that breaks or returns
 	nilRes    bool           // the function returns a pointer and `return nil` occurs: the Lean result is `Option T`
+	nilVars   map[types.Object]bool // local pointers bound to the result of such a function: `Option T` values (x != nil is x.isSome, using x dereferences it)
 	inCallArg bool           // translating an argument of a call: &v is the value v
 	knownNonNil map[types.Object]bool // error variables inside the then-branch of `if err != nil`
 	errOnly   bool           // the function's only result is an error: the Lean result is Bool (true = an error was returned)
@@ -723,6 +736,9 @@ func (t *fnTrans) expr(e ast.Expr) lexpr {
 		if _, ok := o.(*types.Var); !ok {
 			bail("identifier %s is not a variable", x.Name)
 		}
+		if t.nilVars[o] {
+			return lexpr{t.nameOf(o), true} // using a nil-able pointer dereferences it: `none` (a panic) when nil
+		}
 		return lexpr{t.nameOf(o), false}
 	case *ast.UnaryExpr:
 		switch x.Op {
@@ -774,6 +790,16 @@ func (t *fnTrans) expr(e ast.Expr) lexpr {
 				return lexpr{"(do if " + ls + " then " + rs + " else pure " + short + ")", true}
 			}
 			return lexpr{"(do if " + ls + " then pure " + short + " else " + rs + ")", true}
+		}
+		if x.Op == token.EQL || x.Op == token.NEQ {
+			if id, ok := x.X.(*ast.Ident); ok && t.nilVars[info.Uses[id]] {
+				if y, ok := x.Y.(*ast.Ident); ok && y.Name == "nil" {
+					if x.Op == token.NEQ {
+						return lexpr{"(" + t.nameOf(info.Uses[id]) + ").isSome", false}
+					}
+					return lexpr{"(" + t.nameOf(info.Uses[id]) + ").isNone", false}
+				}
+			}
 		}
 		lt := info.Types[x.X].Type
 		if isErrorType(lt) && (x.Op == token.EQL || x.Op == token.NEQ) {
@@ -1505,6 +1531,27 @@ func (t *fnTrans) stmts(list []ast.Stmt, k string, depth int, nres int) string {
 				}
 				lo := lhsObj(x.Lhs[0])
 				t.noteOwner(lo, rhs)
+				delete(t.nilVars, lo)
+				if c, ok := rhs.(*ast.CallExpr); ok {
+					var fobj types.Object
+					switch f := c.Fun.(type) {
+					case *ast.Ident:
+						fobj = info.Uses[f]
+					case *ast.SelectorExpr:
+						if sel, ok := info.Selections[f]; ok {
+							fobj = sel.Obj()
+						} else {
+							fobj = info.Uses[f.Sel]
+						}
+					}
+					if fn, ok := fobj.(*types.Func); ok && fn.Pkg() != nil && fn.Pkg().Path() == t.sp.unit.path {
+						for _, fd := range t.sp.declsByObj(fn) {
+							if nilResOf(t.sp, fd) {
+								t.nilVars[lo] = true
+							}
+						}
+					}
+				}
 				n := t.nameOf(lo)
 				arrow := " := "
 				if x0.eff {
@@ -2072,6 +2119,26 @@ func inoutOf(sp *srcPkg, fd *ast.FuncDecl) []int {
 	return res
 }
 
+// nilResOf: does the declared function return a pointer and `return nil` somewhere?
+func nilResOf(sp *srcPkg, fd *ast.FuncDecl) bool {
+	if fd == nil || fd.Type.Results == nil || len(fd.Type.Results.List) != 1 || len(fd.Type.Results.List[0].Names) > 1 {
+		return false
+	}
+	if _, isPtr := sp.info.Types[fd.Type.Results.List[0].Type].Type.(*types.Pointer); !isPtr {
+		return false
+	}
+	found := false
+	ast.Inspect(fd.Body, func(n ast.Node) bool {
+		if r, ok := n.(*ast.ReturnStmt); ok && len(r.Results) == 1 {
+			if id, ok := r.Results[0].(*ast.Ident); ok && id.Name == "nil" {
+				found = true
+			}
+		}
+		return true
+	})
+	return found
+}
+
 // calleeDecl: the declaration of a translated package-level function called by name
 func (t *fnTrans) calleeDecl(c *ast.CallExpr) (*srcPkg, *ast.FuncDecl) {
 	id, ok := c.Fun.(*ast.Ident)
@@ -2229,7 +2296,7 @@ func translateFunc(sp *srcPkg, all map[string]*srcPkg, name string, chk bool) (d
 		}
 	}()
 	t := &fnTrans{sp: sp, all: all, names: map[types.Object]string{}, used: map[string]int{}, globals: map[types.Object]bool{}, calls: map[string]bool{}, chk: chk,
-		owned: map[types.Object]bool{}, mayAlias: map[types.Object][]types.Object{}, knownNonNil: map[types.Object]bool{}}
+		owned: map[types.Object]bool{}, mayAlias: map[types.Object][]types.Object{}, knownNonNil: map[types.Object]bool{}, nilVars: map[types.Object]bool{}}
 	var params []string
 	if fd.Recv != nil && len(fd.Recv.List) == 1 {
 		r := fd.Recv.List[0]
